@@ -9,6 +9,7 @@
 #include <cstring>
 #include <map>
 #include <memory>
+#include <stdexcept>
 #include <string>
 #include <vector>
 #include "proto.hpp"
@@ -723,6 +724,103 @@ static void pool_containers(const char* what, std::size_t node_size, Rng& g, lon
     std::printf("cp %s node=%zu |  | %s |  | -\n", what, node_size, failures.empty() ? "ok" : "FAILED");
 }
 
+//=== smart pointers over two allocators (C10: "shared_ptr or unique_ptr ... gives each piece of memory back to the allocator object it
+// was obtained from"): every way a block can be given up -- destruction, reset, move assignment over a pointer from the other
+// allocator, and an element constructor that throws half-way (the helper then owns the block) ===//
+struct SpThrower
+{
+    static int countdown; // the constructor that makes it reach 0 throws
+    long       v[3];
+    SpThrower()
+    {
+        if (--countdown == 0)
+            throw std::runtime_error("verif: constructor throws");
+        v[0] = v[1] = v[2] = 7;
+    }
+};
+int SpThrower::countdown = -1;
+
+static std::size_t ledger_live(int id)
+{
+    std::size_t n = 0;
+    for (auto& e : LEDGER)
+        if (e.second.owner == id)
+            ++n;
+    return n;
+}
+
+static void smart_ptr_cases()
+{
+    LedgerAlloc a(0), b(1);
+    long        cases = 0;
+    auto        settle = [&](const char* what) {
+        ++cases;
+        if (ledger_live(0) || ledger_live(1))
+            fail(fmt("smart pointers, %s: %zu block(s) of allocator A and %zu of allocator B were never given back", what, ledger_live(0), ledger_live(1)));
+    };
+    {
+        auto p = allocate_unique<long>(a, 5L);
+        auto q = allocate_unique<long>(b, 6L);
+        p = std::move(q); // A's block goes back to A now, B's when p dies
+        if (ledger_live(0) != 0 || ledger_live(1) != 1)
+            fail("unique_ptr move assignment across allocators: the replaced object was not released to its own allocator");
+    }
+    settle("unique_ptr move assignment");
+    {
+        auto p = allocate_unique<long[]>(a, 7u);
+        auto q = allocate_unique<long[]>(b, 1u);
+        auto r = allocate_unique<long[]>(b, 0u);
+        p.reset();
+        std::swap(q, r);
+    }
+    settle("unique_ptr<T[]> reset / swap");
+    {
+        std::shared_ptr<long> p = allocate_shared<long>(a, 1L), q = allocate_shared<long>(b, 2L);
+        std::shared_ptr<long> r = p;
+        p = q;
+        q.reset();
+    }
+    settle("shared_ptr assignment");
+    for (unsigned n = 1; n <= 5; ++n)
+        for (unsigned k = 1; k <= n; ++k)
+            for (int which = 0; which < 2; ++which)
+            {
+                SpThrower::countdown = int(k);
+                try
+                {
+                    auto p = allocate_unique<SpThrower[]>(which ? b : a, n);
+                    fail("allocate_unique<T[]>: the throwing constructor did not throw");
+                }
+                catch (std::runtime_error&)
+                {
+                }
+                SpThrower::countdown = -1;
+                settle("allocate_unique<T[]> with a constructor that throws");
+            }
+    for (int which = 0; which < 2; ++which)
+    {
+        SpThrower::countdown = 1;
+        try
+        {
+            auto p = allocate_unique<SpThrower>(which ? b : a);
+        }
+        catch (std::runtime_error&)
+        {
+        }
+        SpThrower::countdown = 1;
+        try
+        {
+            auto p = allocate_shared<SpThrower>(which ? b : a);
+        }
+        catch (std::runtime_error&)
+        {
+        }
+        SpThrower::countdown = -1;
+        settle("allocate_unique / allocate_shared with a constructor that throws");
+    }
+    n_ns += cases;
+}
+
 int main(int argc, char** argv)
 {
     bool               thorough = argc > 1 && std::atoi(argv[1]) != 0;
@@ -751,6 +849,7 @@ int main(int argc, char** argv)
     ns_size<64>();
     ns_size<128>();
 #endif
+    smart_ptr_cases();
     long nops = thorough ? 1500 : 300;
     run_kind<KList>("list", g, nops);
     run_kind<KFwd>("forward_list", g, nops);
